@@ -877,7 +877,7 @@ def oracle(case):
             if ref[1] == 'EZeroDiv':
                 with np.errstate(all='ignore'):
                     loose = np_eval(store_before_dense, op) if False else None
-                return f'{tag}: {zero_class(pre_dense, op)}: returns normally where NumPy raises FloatingPointError'
+                return f'{tag}: {"logical " if t in ("l", "b") else ""}{zero_class(pre_dense, op)}: returns normally where NumPy raises FloatingPointError'
             return f'{tag}: returns normally where NumPy raises {ref[1]}'
         # both returned: compare dense images
         if o[0] == 'self' or ref[0] == 'self': continue
@@ -927,6 +927,7 @@ CLASSES = [
     ('rejected-but-modified', 'rejected-but-modified'),
     ('read-only', 'read-only-write-accepted'),
     ('frame', 'frame'),
+    ('logical nonzero/0', 'logical-nonzero-over-zero-accepted'),
     ('nonzero/0', 'nonzero-over-zero-accepted'),
     ('0/0', 'zero-over-zero-gives-zero'),
 ]
@@ -942,3 +943,38 @@ def finding_key(case, msg):
     if 'shape' in msg: return 'C09:result-shape:' + n
     if 'values' in msg: return 'C09:values:' + ':'.join(head[:3])
     return 'C09:' + ':'.join(head[:2])
+
+# ------------------------------------------------------------------ regression corpus and witnesses
+# minimised inputs of the defects repaired by pending_fixes/C09_1 .. C09_7 (they run first; on the repaired tree they pass)
+CORPUS = [
+    {'objs': [['v', [1.0, 0.0, 2.0], False]], 'ops': [['ibin', 'sub', 0, ['o', 0]]]},                                   # C09_1
+    {'objs': [['a', [[1.0, 0.0], [0.0, 2.0]]]], 'ops': [['ibin', 'sub', 0, ['o', 0]]]},                                 # C09_1 (row-wise)
+    {'objs': [['v', [1.0, 0.0, 2.0], False], ['v', [0.0, 1.0, 2.0], False]], 'ops': [['bin', 'truediv', 0, ['o', 1]]]},  # C09_2
+    {'objs': [['v', [2.0], False], ['v', [1.0, 0.0, 4.0], False]], 'ops': [['ibin', 'truediv', 0, ['o', 1]]]},           # C09_3
+    {'objs': [['v', [0.0], False], ['v', [1.0, 2.0, 3.0], False]],
+     'ops': [['bin', 'truediv', 0, ['o', 1]], ['ibin', 'add', 2, ['s', 1.0]]]},                                          # C09_4
+    {'objs': [['a', [[1.0, 0.0], [0.0, 0.0]]]], 'ops': [['red', 'any', 0, 1, True], ['bin', 'or', 1, ['sb', True]]]},    # C09_5
+    {'objs': [['a', [[0.0, -1.0], [-2.0, 0.0]]]], 'ops': [['red', 'max', 0, None, True]]},                               # C09_6
+    {'objs': [['v', [1.0, 2.0], False]], 'ops': [['set', 0, ['o'], ['l2', [[1.0, 2.0], [3.0, 4.0]]]]]},                  # C09_7
+]
+# witnesses of the refuted statements of coq/C09/Props.v (behaviour that is kept: proposed known findings)
+WITNESSES = [
+    {'key': 'C09:zero-over-zero-gives-zero',
+     'case': {'objs': [['v', [0.0, 1.0], False], ['v', [0.0, 1.0], False]], 'ops': [['bin', 'truediv', 0, ['o', 1]]]}},
+    {'key': 'C09:inplace-target-resized-or-shape-not-checked',
+     'case': {'objs': [['v', [1.0], False], ['v', [1.0, 2.0, 3.0], False]], 'ops': [['ibin', 'add', 0, ['o', 1]]]}},
+    {'key': 'C09:broadcast-not-supported:bin',
+     'case': {'objs': [['v', [1.0], False], ['v', [], False]], 'ops': [['bin', 'add', 0, ['o', 1]]]}},
+    {'key': 'C09:invariant-key-out-of-range',
+     'case': {'objs': [['v', [0.0], False]], 'ops': [['set', 0, ['i', 3], ['s', 1.0], {'raw': True}]]}},
+    {'key': 'C09:setitem-shape-not-checked',
+     'case': {'objs': [['v', [0.0, 0.0, 0.0], False]], 'ops': [['set', 0, ['li', [0, 1, 2]], ['l', [5.0, 6.0]], {'raw': True}]]}},
+    {'key': 'C09:read-only-write-accepted',
+     'case': {'objs': [['a', [[1.0]]]], 'ops': [['un', 'setro', 0], ['ibin', 'add', 0, ['s', 1.0]]]}},
+    {'key': 'C09:logical-nonzero-over-zero-accepted',
+     'case': {'objs': [['l', [True]], ['l', [True, False]]], 'ops': [['bin', 'truediv', 0, ['o', 1]]]}},
+    {'key': 'C09:shape-not-checked:bin',
+     'case': {'objs': [['a', [[1.0], [2.0], [3.0]]]], 'ops': [['bin', 'add', 0, ['n2', [[1.0], [1.0]]]]]}},
+    {'key': 'C09:values:aset::a',
+     'case': {'objs': [['a', [[0.0, 0.0]]]], 'ops': [['aset', 0, ['row', ['m', [True]]], ['l', [5.0, 7.0]], {'raw': True}]]}},
+]
